@@ -26,7 +26,6 @@
 EXTENDS Sdl, Json
 
 NoSlices == <<>>
-NoQuants(tag) == {}
 
 Rec == ndJsonDeserialize("trace.ndjson")
 
